@@ -511,8 +511,13 @@ def mt_gap_no_panic(res, cfgs, seed, N=24, timeout_s=600, width=16, queries=("q_
     for c in cfgs:
         with T.width(width):
             try:
-                base = msq.relation(c)
-                rel = mt.build(c, N, mir_path=base.mir_path, line=T.GapLine(N))
+                try:
+                    mir_path = msq.relation(c).mir_path
+                except Exception:
+                    from mir.relation import dump_mir
+                    from common import REPO, scratch
+                    mir_path, _ = dump_mir(REPO, c, scratch())
+                rel = mt.build(c, N, mir_path=mir_path, line=T.GapLine(N))
             except Exception as e:
                 res.inconclusive.append("engine M could not encode the sentence parser on the long-line model [%s]: %s" % (c, str(e)[:400]))
                 continue
@@ -538,8 +543,15 @@ def mt_setup(res, cfgs, tier, seed, N=None):
     N = N or MT_N[tier]
     for c in cfgs:
         try:
-            base = msq.relation(c)
-            rel = mt.build(c, N, mir_path=base.mir_path)
+            try:
+                mir_path = msq.relation(c).mir_path
+            except Exception:
+                # the state layer cannot encode this AisParser::parse (e.g. it manipulates the line before parsing it): the text layer
+                # only needs the MIR dump
+                from mir.relation import dump_mir
+                from common import REPO, scratch
+                mir_path, _ = dump_mir(REPO, c, scratch())
+            rel = mt.build(c, N, mir_path=mir_path)
         except Exception as e:
             res.inconclusive.append("engine M could not encode the sentence parser [%s]: %s" % (c, str(e)[:400]))
             continue
